@@ -76,10 +76,21 @@ Definition tet_add_face_v (s : mesh) (vs : list nat) : mesh * option nat :=
 (* with topology check: exactly four distinct vertices over the four halffaces (std::set of the from-vertices) *)
 Definition hfs_vertex_set (s : mesh) (hfs : list nat) : list nat := set_of_list (flat_map (hf_vertices s) hfs).
 
+(* since the fix "checked tet add_cell must reject four triangles on fewer than four vertex triples" (.cc:106-118): the std::set of the
+   four std::set<VertexHandle> of from-vertices has four elements; two vertex lists denote the same set iff each is included in the other *)
+Definition same_vset (a b : list nat) : bool := forallb (fun x => memb x b) a && forallb (fun x => memb x a) b.
+Fixpoint distinct_vsets (l : list (list nat)) : list (list nat) :=
+  match l with
+  | [] => []
+  | x :: t => if existsb (same_vset x) t then distinct_vsets t else x :: distinct_vsets t
+  end.
+Definition hfs_triple_count (s : mesh) (hfs : list nat) : nat := length (distinct_vsets (map (hf_vertices s) hfs)).
+
+(* both tests are pure and return the invalid handle: one guard *)
 Definition tet_add_cell (s : mesh) (hfs : list nat) (check : bool) : mesh * option nat :=
   if negb (length hfs =? 4) then (s, None)
   else if negb (forallb (fun hf => length (face_at s (hf / 2)) =? 3) hfs) then (s, None)
-  else if check && negb (length (hfs_vertex_set s hfs) =? 4) then (s, None)
+  else if check && negb ((length (hfs_vertex_set s hfs) =? 4) && (hfs_triple_count s hfs =? 4)) then (s, None)
   else add_cell s hfs check.
 
 (* ------------------------------------------------------------------ reuse-or-create (98-123) *)
